@@ -23,7 +23,7 @@ structure St where
   loc : Loc.State := Loc.init
   paths : PathS.State := PathS.init
   file : FileM.State := FileM.init
-  rwp : Rwp.State := Rwp.init
+  rwp : Tulz.Drv.Rwp.State := Tulz.Drv.Rwp.init
   pool : Pool.State := Pool.init
   thr : Thr.State := Thr.init
 
@@ -38,7 +38,7 @@ def stepLine (st : St) (line : String) : St × String :=
   | "loc" :: args => let (s, o) := Loc.step st.loc args; ({ st with loc := s }, o)
   | "ps" :: args => let (s, o) := PathS.step st.paths args; ({ st with paths := s }, o)
   | "file" :: args => let (s, o) := FileM.step st.file args; ({ st with file := s }, o)
-  | "rwp" :: args => let (s, o) := Rwp.step st.rwp args; ({ st with rwp := s }, o)
+  | "rwp" :: args => let (s, o) := Tulz.Drv.Rwp.step st.rwp args; ({ st with rwp := s }, o)
   | "pool" :: args => let (s, o) := Pool.step st.pool args; ({ st with pool := s }, o)
   | "thr" :: args => let (s, o) := Thr.step st.thr args; ({ st with thr := s }, o)
   | _ => (st, "bad-component")
